@@ -31,7 +31,10 @@ def _one(args):
         shutil.copy(os.path.join(repo, "setup.py"), tmp)
         r = subprocess.run(["git", "apply", "--unsafe-paths", "--directory=" + tmp, patch], capture_output=True, text=True, cwd="/")
         if r.returncode:
-            return label, "skipped (patch does not apply to the current tree)", []
+            # same fallback as tools/matrix.py: a hunk whose context moved by a few lines still applies with patch(1)
+            r = subprocess.run(["patch", "-p1", "-s", "-i", patch], cwd=tmp, capture_output=True, text=True)
+            if r.returncode:
+                return label, "skipped (patch does not apply to the current tree)", []
         code, new, ctx, lines = run_property(prop, "quick", tmp, write=False, quiet=True)
         fresh = [f for f in new if f.key not in base_keys]
         if code == 1 and not fresh:
